@@ -18,6 +18,7 @@ import (
 	"strconv"
 	"strings"
 	"sync"
+	"sync/atomic"
 	"time"
 
 	"github.com/AliceO2Group/Control/common/event"
@@ -61,6 +62,8 @@ type Scenario struct {
 		Stall bool `json:"stall,omitempty"`
 		// PadKB > 0: every event carries a payload of that many kilobytes (integrated-service events with a long Payload)
 		PadKB int `json:"pad_kb,omitempty"`
+		// FirstMs > 0: the broker takes that long over the FIRST batch only (recorded when it has taken it)
+		FirstMs int `json:"first_ms,omitempty"`
 	} `json:"free,omitempty"`
 }
 
@@ -361,8 +364,14 @@ func runFree(rec *vtrace.Recorder, sc *Scenario) {
 	if !sc.Free.Stall {
 		close(release)
 	}
+	var first int32
 	w := event.VerifNewWriter("verif", sc.Cfg.ChanCap, func(msgs []kafka.Message) {
 		<-release
+		if sc.Free.FirstMs > 0 {
+			if atomic.CompareAndSwapInt32(&first, 0, 1) { // (only the first batch is slow; later ones must not wait behind a lock here)
+				time.Sleep(time.Duration(sc.Free.FirstMs) * time.Millisecond)
+			}
+		}
 		b := make([]item, 0, len(msgs))
 		for _, m := range msgs {
 			id, env, key, _ := decode(m)
@@ -422,7 +431,7 @@ func runFree(rec *vtrace.Recorder, sc *Scenario) {
 	}()
 	returned := false
 	closeWait := 3 * time.Second
-	if sc.Free.Stall {
+	if sc.Free.Stall || sc.Free.FirstMs > 0 {
 		closeWait = 30 * time.Second
 	}
 	select {
